@@ -7,6 +7,7 @@ package main
 
 import (
 	"bytes"
+	"encoding/json"
 	"flag"
 	"fmt"
 	"os"
@@ -41,6 +42,7 @@ type mutantResult struct {
 	Expect   string   `json:"expect_key_contains"`
 	Reported []string `json:"reported,omitempty"`
 	Note     string   `json:"note,omitempty"`
+	Suite    string   `json:"pinned_suite_on_this_edit,omitempty"` // recorded once by scripts/mutant_suite.sh
 }
 
 func applyEdits(repo string, edits []edit) (map[string][]byte, error) {
@@ -159,9 +161,14 @@ func runSelfTest(repo, verif, prop string) interface{} {
 		}
 	}
 	rs := runMutants(repo, ms, 6)
+	suite := map[string]string{}
+	if b, err := os.ReadFile(filepath.Join(verif, "selftest_suite_outcomes.json")); err == nil {
+		json.Unmarshal(b, &suite)
+	}
 	sum := map[string]int{}
-	for _, r := range rs {
+	for i, r := range rs {
 		sum[r.Status]++
+		rs[i].Suite = suite[r.ID]
 	}
 	return map[string]interface{}{"applied": len(ms), "detected": sum["detected"], "missed": sum["missed"], "stale": sum["stale"], "load_error": sum["load-error"], "results": rs}
 }
@@ -171,7 +178,32 @@ func cmdSelftest(args []string) int {
 	repo := fs.String("repo", "/repo", "repository root")
 	only := fs.String("only", "", "substring of mutant id / property / rule")
 	par := fs.Int("j", 6, "parallel loads")
+	export := fs.String("export", "", "write the edited files of every (non-stale) mutant under DIR/<id>/ instead of analysing")
 	fs.Parse(args)
+	if *export != "" {
+		n := 0
+		for _, m := range mutantTable() {
+			ov, err := applyEdits(*repo, m.Edits)
+			if err != nil {
+				fmt.Println("stale", m.ID, err)
+				continue
+			}
+			for path, content := range ov {
+				rel, _ := filepath.Rel(*repo, path)
+				dst := filepath.Join(*export, m.ID, rel)
+				os.MkdirAll(filepath.Dir(dst), 0o755)
+				os.WriteFile(dst, content, 0o644)
+			}
+			tag := "default"
+			if m.Vectors {
+				tag = "vectors"
+			}
+			os.WriteFile(filepath.Join(*export, m.ID, "CONFIG"), []byte(tag+"\n"), 0o644)
+			n++
+		}
+		fmt.Println("exported", n)
+		return 0
+	}
 	var ms []mutant
 	for _, m := range mutantTable() {
 		if *only == "" || strings.Contains(m.ID, *only) || m.Prop == *only || m.Rule == *only {
